@@ -164,7 +164,18 @@ def _sanitiser(ctx) -> None:
             c, v5, pol = r
             res_t = ("cmp", "In", v5, ("call", ("name", "_get_reserved_names"), (), ()))
             kw_t = ("call", ("attr", ("name", "keyword"), "iskeyword"), (v5,), ())
-            parts = set(c[2]) if (c[0] == "bool" and c[1] == "or") else {c}
+            def disjuncts(t):
+                """the alternatives of a truth-valued term: `a or b`, `True if a else b` (a helper with `if a: return True; return b`)"""
+                if t[0] == "bool" and t[1] == "or":
+                    return set().union(*[disjuncts(x) for x in t[2]])
+                if t[0] == "ifexp" and t[2] == ("const", "bool", True):
+                    return disjuncts(t[1]) | disjuncts(t[3])
+                if t[0] == "ifexp" and t[3] == ("const", "bool", True) and t[1][0] == "un" and t[1][1] == "Not":
+                    return disjuncts(t[1][2]) | disjuncts(t[2])
+                if t[0] == "call" and t[1] == ("name", "bool") and len(t[2]) == 1:
+                    return disjuncts(t[2][0])
+                return {t}
+            parts = disjuncts(c)
             if not pol or res_t not in parts or parts - {res_t, kw_t}:
                 details.append(f"reserved test is `{sh(c)}`")
             elif kw_t not in parts:
